@@ -21,7 +21,7 @@ var Check = &ev.Check{
 	ID:    "C05",
 	Level: "exploration",
 	Rule: "reader schema R = every struct-like type of the cell universe; writer encodings = the reference encoding of every valid value with <=1 deviating field, transformed by every single evolution step (thorough: every pair of steps) at every applicable position: " +
-		"inject one well-formed foreign field (9 shapes: bool, i32, i64, double, binary, nested struct, list<struct>, map<binary,list<i16>>, set<i32>) with an unknown id (0, -1, max+1, 32767, a gap) or a known id under another wire type, at every field boundary; remove a field; retype a field to two other wire types; reverse field order; " +
+		"inject one well-formed foreign field (14 shapes: bool, i32, i64, double, binary, nested struct, list<struct>, map<binary,list<i16>>, set<i32>, structs nested 70 and 300 deep, lists nested 100 deep, a 200 kB binary, a 20 000-element list) with an unknown id (0, -1, max+1, 32767, a gap) or a known id under another wire type, at every field boundary; remove a field; retype a field to two other wire types; reverse field order; " +
 		"and the same steps inside every nested struct value (direct field, list/set element, map value) down to depth 2. Both decoding paths of R (stream path whole and 1-byte reads). " +
 		"Oracle (reference evolved decode): unknown-id and wrong-wire-type fields are ignored, absent optionals unset or default; decoding fails iff a required field without default is absent or mistyped (recursively), or a union does not end with exactly one member. " +
 		"A case is (type, transformed encoding); non-trivial = encodings that contain at least one foreign, retyped or removed field.",
@@ -52,6 +52,44 @@ func foreignShapes() []tbin.Value {
 	}
 }
 
+// heavyShapes are injected only at the first and last field boundary.
+func heavyShapes() []tbin.Value {
+	return []tbin.Value{deepStruct(70), deepStruct(300), deepList(100), bigBinary(200000), bigList(20000)}
+}
+
+// deepStruct nests n structs (a linked list written by a newer schema).
+func deepStruct(n int) tbin.Value {
+	v := tbin.Value{T: tbin.Struct, Fields: []tbin.Field{{ID: 1, V: tbin.Value{T: tbin.I32, I: 1}}}}
+	for i := 0; i < n; i++ {
+		v = tbin.Value{T: tbin.Struct, Fields: []tbin.Field{{ID: 1, V: tbin.Value{T: tbin.I32, I: int64(i)}}, {ID: 2, V: v}}}
+	}
+	return v
+}
+
+func deepList(n int) tbin.Value {
+	v := tbin.Value{T: tbin.List, VT: tbin.I8, Items: []tbin.Value{{T: tbin.I8, I: 1}}}
+	for i := 0; i < n; i++ {
+		v = tbin.Value{T: tbin.List, VT: tbin.List, Items: []tbin.Value{v}}
+	}
+	return v
+}
+
+func bigBinary(n int) tbin.Value {
+	b := make([]byte, n)
+	for i := range b {
+		b[i] = byte(i)
+	}
+	return tbin.Value{T: tbin.Binary, B: b}
+}
+
+func bigList(n int) tbin.Value {
+	v := tbin.Value{T: tbin.List, VT: tbin.I32}
+	for i := 0; i < n; i++ {
+		v.Items = append(v.Items, tbin.Value{T: tbin.I32, I: int64(i)})
+	}
+	return v
+}
+
 // steps enumerates every single evolution step of the struct value s, given
 // the declared (id -> wire type) of the reader's struct at this level.
 func steps(s tbin.Value, declared map[int16]tbin.Type, yield func(desc string, out tbin.Value)) {
@@ -74,7 +112,19 @@ func steps(s tbin.Value, declared map[int16]tbin.Type, yield func(desc string, o
 	}
 	clone := func(fs []tbin.Field) []tbin.Field { return append([]tbin.Field{}, fs...) }
 	for pos := 0; pos <= len(s.Fields); pos++ {
-		for si, sh := range foreignShapes() {
+		shapes := foreignShapes()
+		if pos == 0 || pos == len(s.Fields) {
+			shapes = append(shapes, heavyShapes()...)
+		}
+		for si, sh := range shapes {
+			if si >= len(foreignShapes()) && len(ids) > 0 {
+				// heavy shapes: one unknown id only
+				fs := clone(s.Fields[:pos])
+				fs = append(fs, tbin.Field{ID: ids[len(ids)-1], V: sh})
+				fs = append(fs, s.Fields[pos:]...)
+				yield(fmt.Sprintf("inject heavy shape#%d id=%d at %d", si, ids[len(ids)-1], pos), tbin.Value{T: tbin.Struct, Fields: fs})
+				continue
+			}
 			for _, id := range ids {
 				if _, known := declared[id]; known {
 					continue
@@ -203,6 +253,9 @@ func run(w *ev.W) {
 			base := e.P.ToWire(f, t, v)
 			try := func(desc string, wv tbin.Value) {
 				k := wv.Key()
+				if len(k) > 4096 {
+					k = fmt.Sprintf("%s#%d", desc, len(k))
+				}
 				if seen[k] {
 					return
 				}
